@@ -1,15 +1,18 @@
 import OsacaVerif.Model.Glue
 import OsacaVerif.Model.Report
 /-
-  From FILE TEXT to the analysis and its report: `osaca.osaca.inspect` under `--fixed` on an x86 file,
-  composed from the stage models — nothing is re-modelled here.
+  From FILE TEXT to the analysis and its report: `osaca.osaca.inspect` under `--fixed` on an x86 or an
+  AArch64 file, composed from the stage models — nothing is re-modelled here.  One definition for both
+  ISAs: `analyse isa`; `analyseX86 = analyse .x86`, `analyseA64 = analyse .a64`.
 
       file text
-        │  BaseParser.parse_file / ParserX86ATT.parse_line          ParseX86.parseFile      (C09)
+        │  BaseParser.parse_file / ParserX86ATT.parse_line           ParseX86.parseFile      (C09)
+        │                        / ParserAArch64.parse_line          ParseA64.parseFile      (C10)
         ▼
-      parsed lines ── Glue.selOf ──► what kernel selection sees                              (C11)
+      parsed lines ── Glue.formX86 / Glue.formA64 ──► Glue.Form ── Form.sel ──► kernel selection (C11)
         │  per instruction line (a function of the line's text and the model only):
         │    ISASemantics.assign_src_dst                             Isa.assignSrcDst        (C03Roles)
+        │      (AArch64: + write-back of pre- and post-indexed bases)
         │    ArchSemantics.assign_tp_lt  (lookup + fall-backs,       Compose.assignTpLt      (C07, C08)
         │      load/store composition, uniform pressure)             (Match, Ports.averageY) (C01)
         │    ISASemantics.get_reg_changes                            Isa.regChanges          (C03Roles)
@@ -22,13 +25,14 @@ import OsacaVerif.Model.Report
   Exceptions of the Python code are outcomes.  One difference in *when* they surface: the model
   computes the per-line data of every selected line eagerly (also `get_reg_changes`, which the
   Python code calls lazily during the scan of `find_depending`); whenever no such call raises —
-  always, for the shipped x86 ISA database on parser outputs — the two agree.
+  always, for the shipped ISA databases on parser outputs — the two agree.
 -/
 namespace OsacaVerif.EndToEnd
 open OsacaVerif OsacaVerif.Text OsacaVerif.Operand
 
 /-- the machine model: what `Match` / `Compose` / `Ports` consume, the two latencies `KernelDG` reads,
-    and the ISA database of `ISASemantics` (`Gen.isaDbX86` for the shipped `isa/x86.yml`) -/
+    and the ISA database of `ISASemantics` (`Gen.isaDbX86` / `Gen.isaDbA64` for the shipped `isa/x86.yml` /
+    `isa/aarch64.yml`) -/
 structure Model where
   mm : Compose.MModel
   par : DG.Params := {}
@@ -54,6 +58,46 @@ structure Opts where
   /-- Python's `repr(float)` (an input of the report model, DESIGN §3) -/
   repr : Rat → Txt
 
+/-- the parser's exception, per ISA -/
+inductive ParseErr where
+  | x86 (e : X86.Err)
+  | a64 (e : ParseA64.Err)
+  deriving DecidableEq, Repr
+
+/-- `parse_line` of the ISA's parser, behind the glue -/
+inductive PRes where
+  | ok (f : Glue.Form)
+  | err (e : ParseErr)
+  deriving DecidableEq, Repr
+
+def resX86 : X86.Res → PRes
+  | .ok f => .ok (Glue.formX86 f)
+  | .err e => .err (.x86 e)
+
+def resA64 : ParseA64.Out → PRes
+  | .ok l => .ok (Glue.formA64 l)
+  | .err => .err (.a64 .err)
+  | .exc => .err (.a64 .exc)
+
+def parseLineOf : Operand.Isa → Txt → PRes
+  | .x86, t => resX86 (ParseX86.parseLine t)
+  | .a64, t => resA64 (ParseA64.parseLine t)
+
+/-- one entry of `parse_file` -/
+structure FLine where
+  lineNo : Nat
+  text : Txt
+  res : PRes
+
+/-- `parse_file(file_content)` of the ISA's parser (`start_line = 0`) -/
+def parseFileOf : Operand.Isa → Txt → List FLine
+  | .x86, c => (ParseX86.parseFile 0 c).map fun x => ⟨x.lineNo, x.text, resX86 x.res⟩
+  | .a64, c => (ParseA64.parseFile c 0).map fun x => ⟨x.lineNo, x.text, resA64 x.out⟩
+
+def dgIsa : Operand.Isa → DG.Isa
+  | .x86 => .x86
+  | .a64 => .a64
+
 inductive SemErr where
   /-- `assign_tp_lt` raised -/
   | tplt (e : Ports.Err)
@@ -72,14 +116,14 @@ structure Stages where
   changes : Except IsaOp.Err (List (Txt × Option IsaOp.OpState))
   changesPost : Except IsaOp.Err (List (Txt × Option IsaOp.OpState))
 
-def stagesOf (m : Model) (f : X86.Form) : Stages :=
-  let ops := Glue.opndsOf f.operands
-  let r := Isa.assignSrcDst .x86 m.isaDb f.mnemonic ops
+def stagesOf (isa : Operand.Isa) (m : Model) (f : Glue.Form) : Stages :=
+  let ops := f.operands
+  let r := Isa.assignSrcDst isa m.isaDb f.mnemonic ops
   let ins := Glue.composeIns f.mnemonic ops r.sem
   { ops := ops, roles := r, ins := ins
     tplt := Compose.assignTpLt m.mm ins
-    changes := Isa.regChanges .x86 m.isaDb f.mnemonic ops r.sem false
-    changesPost := Isa.regChanges .x86 m.isaDb f.mnemonic ops r.sem true }
+    changes := Isa.regChanges isa m.isaDb f.mnemonic ops r.sem false
+    changesPost := Isa.regChanges isa m.isaDb f.mnemonic ops r.sem true }
 
 /-- the stage results as the later stages read them -/
 def semOfStages (m : Model) (s : Stages) : Except SemErr Pipeline.Sem :=
@@ -105,9 +149,9 @@ def semOfStages (m : Model) (s : Stages) : Except SemErr Pipeline.Sem :=
     | _, .error e => .error (.changes e)
 
 /-- the per-instruction data of a line: a function of the MODEL and the line's TEXT only -/
-def semOfText (m : Model) (t : Txt) : Option (Except SemErr Pipeline.Sem) :=
-  match ParseX86.parseLine t with
-  | .ok f => some (semOfStages m (stagesOf m f))
+def semOfText (isa : Operand.Isa) (m : Model) (t : Txt) : Option (Except SemErr Pipeline.Sem) :=
+  match parseLineOf isa t with
+  | .ok f => some (semOfStages m (stagesOf isa m f))
   | .err _ => none
 
 /-- a parsed line with its per-instruction data (or the exception) -/
@@ -115,15 +159,15 @@ structure Line where
   pl : Pipeline.PLine
   err : Option SemErr := none
 
-def lineOf (m : Model) (num : Nat) (text : Txt) (f : X86.Form) : Line :=
-  match semOfStages m (stagesOf m f) with
-  | .ok s => { pl := { sel := Glue.selOf num f, sem := s, text := text } }
-  | .error e => { pl := { sel := Glue.selOf num f, text := text }, err := some e }
+def lineOf (isa : Operand.Isa) (m : Model) (num : Nat) (text : Txt) (f : Glue.Form) : Line :=
+  match semOfStages m (stagesOf isa m f) with
+  | .ok s => { pl := { sel := f.sel num, sem := s, text := text } }
+  | .error e => { pl := { sel := f.sel num, text := text }, err := some e }
 
 /-! ### the file -/
 
 /-- `parse_file` raises at the first line `parse_line` rejects -/
-def collect : List X86.PLine → Except (Nat × X86.Err) (List (Nat × Txt × X86.Form))
+def collect : List FLine → Except (Nat × ParseErr) (List (Nat × Txt × Glue.Form))
   | [] => .ok []
   | x :: xs =>
     match x.res with
@@ -133,8 +177,8 @@ def collect : List X86.PLine → Except (Nat × X86.Err) (List (Nat × Txt × X8
       | .error e => .error e
       | .ok r => .ok ((x.lineNo, x.text, f) :: r)
 
-def linesOf (m : Model) (fs : List (Nat × Txt × X86.Form)) : List Line :=
-  fs.map fun x => lineOf m x.1 x.2.1 x.2.2
+def linesOf (isa : Operand.Isa) (m : Model) (fs : List (Nat × Txt × Glue.Form)) : List Line :=
+  fs.map fun x => lineOf isa m x.1 x.2.1 x.2.2
 
 /-- the first selected line whose per-instruction data could not be computed -/
 def firstErr (lines : List Line) (k : List Pipeline.PLine) : Option (Nat × SemErr) :=
@@ -153,7 +197,7 @@ structure Result where
 inductive Outcome where
   | ok (r : Result)
   /-- `parse_line` raised on that line -/
-  | parseError (line : Nat) (e : X86.Err)
+  | parseError (line : Nat) (e : ParseErr)
   /-- `add_semantics` / `get_reg_changes` raised on that line of the kernel -/
   | semError (line : Nat) (e : SemErr)
   | badIsa
@@ -161,8 +205,8 @@ inductive Outcome where
   | badLines
   | emptyKernel
 
-def cfgOf (m : Model) (o : Opts) : Pipeline.Cfg :=
-  { isa := .x86, flagDeps := o.flagDeps, par := m.par, floor := o.floor, nports := m.mm.ports.length }
+def cfgOf (isa : Operand.Isa) (m : Model) (o : Opts) : Pipeline.Cfg :=
+  { isa := dgIsa isa, flagDeps := o.flagDeps, par := m.par, floor := o.floor, nports := m.mm.ports.length }
 
 def linesGiven : Pipeline.Mode → Bool
   | .lines _ => true
@@ -176,14 +220,14 @@ def resultOf (m : Model) (o : Opts) (file k : List Pipeline.PLine) (a : Pipeline
       (Report.lengthWarningFlag (linesGiven o.mode) k.length file.length) false rep }
 
 /-- selection, then the analysis of the kernel, then the report -/
-def assemble (m : Model) (o : Opts) (lines : List Line) : Outcome :=
+def assemble (isa : Operand.Isa) (m : Model) (o : Opts) (lines : List Line) : Outcome :=
   let file := lines.map (·.pl)
   match Pipeline.select o.mode file with
   | .ok k =>
     (match firstErr lines k with
      | some (n, e) => .semError n e
      | none =>
-       match Pipeline.run (cfgOf m o) o.mode file with
+       match Pipeline.run (cfgOf isa m o) o.mode file with
        | .ok a => .ok (resultOf m o file k a)
        | .badIsa => .badIsa
        | .raised => .raised
@@ -194,10 +238,18 @@ def assemble (m : Model) (o : Opts) (lines : List Line) : Outcome :=
   | .badLines => .badLines
   | .emptyKernel => .emptyKernel
 
-/-- **`osaca --arch <model> --fixed [--lines …] [--ignore-unknown] [--consider-flag-deps] file`** -/
-def analyseX86 (m : Model) (o : Opts) (file : Txt) : Outcome :=
-  match collect (ParseX86.parseFile 0 file) with
+/-- **`osaca --arch <model> --fixed [--lines …] [--ignore-unknown] [--consider-flag-deps] file`** for a model
+    of the ISA `isa` -/
+def analyse (isa : Operand.Isa) (m : Model) (o : Opts) (file : Txt) : Outcome :=
+  match collect (parseFileOf isa file) with
   | .error (n, e) => .parseError n e
-  | .ok fs => assemble m o (linesOf m fs)
+  | .ok fs => assemble isa m o (linesOf isa m fs)
+
+/-- the x86 instance: `ParseX86.parseFile`, `Glue.formX86`, x86 roles / lookup fall-backs / register dependences -/
+abbrev analyseX86 (m : Model) (o : Opts) (file : Txt) : Outcome := analyse .x86 m o file
+
+/-- the AArch64 instance: `ParseA64.parseFile`, `Glue.formA64`, AArch64 roles with write-back, `.`-suffix
+    fall-back, pre- and post-indexed composition, `p_index_latency` on write-back edges -/
+abbrev analyseA64 (m : Model) (o : Opts) (file : Txt) : Outcome := analyse .a64 m o file
 
 end OsacaVerif.EndToEnd
